@@ -26,7 +26,7 @@ func init() {
 			"R9: in the zip helpers (the functions that touch archive/zip, what they call, their closures) a value with a Close method that is obtained while one entry is handled - in the body of a loop, or in a function that runs once per entry because it is handed over as a value (walk callback, iteration body) or called from such a place - and is not handed on, is closed before the next entry is handled: no path leads from the successful open round the loop to the same open again without a Close that was CALLED (a deferred Close only runs when the function returns), and in a once-per-entry function every path from the successful open to a return that is not a failure passes a called or deferred Close (directly, through a repository helper that closes its parameter, or a closure called/deferred in place); the property quantifies over trees with many files, and a handle per entry that lives until the whole archive is done exhausts the descriptors of the process. " +
 			"R10: in the function that writes archive entries every path that returns without a failure and without having reached the archive write knows one of the reasons the property allows for leaving an entry out: a test of the file-TYPE bits only said it is no regular file (IsDir, Mode().IsDir, !Mode().IsRegular, Mode()&M != 0 with M inside os.ModeType - a mask that also covers permission or attribute bits such as setuid/setgid/sticky says nothing about the kind), the filter was called on the walked path and returned false, the recursive flag is known off AND the directory comparison said 'other directory', or the walk itself reported an error for the entry; a repository predicate whose result is known on the path (also one that is handed only the FileInfo, also the element of a fixed table of predicates) counts for what every one of its paths returning that result knows. " +
 			"R11: every directory string that meets the walked path in that function and the helpers it hands the path to - the base of filepath.Rel, a prefix cut off, the directory the file's directory is compared with - is the root filepath.Walk was given for this callback: the same variable, field or expression (variables and fields assigned once are looked through, a parameter is what the call it was reached through passes), not another value that merely holds the same string for most inputs. " +
-			"R12: what R1 asks of the creating calls holds for every call that changes the file system (os.Remove, RemoveAll, Rename, Chmod, Chown, Chtimes, Truncate ... and repository functions whose parameter reaches one): no entry-name-derived value reaches it without a containment test known to have succeeded on it - and a closure that hands a captured variable to such a call either makes the test itself or runs (call sites; for a deferred closure every exit of the function behind the defer statement) only where the value last assigned to the variable has passed the test; a variable assigned from the entry name before the test and read by a deferred clean-up is unchecked at that read. R13: in the function that extracts, every path from the point an entry is obtained to the point the next one is obtained, or to a return that is no failure, passes the creating call named by the entry name and a call that moves the entry's content into the created file (io.Copy/CopyBuffer/CopyN, ReadFrom/WriteTo, Write, os.WriteFile of io.ReadAll; a repository function counts when every one of its own paths to a return that is no failure passes one), unless the path knows the entry is no regular file (kind bits, trailing slash), that the containment test rejected it, or that there is no entry. R14: a function that returns *zip.File, reads elements of a []*zip.File and keeps a cursor (writes state that outlives the call) returns every element it reads: no path from the read of an element to the read of another one or to a return of something else. R15: in ZipFolder and everything of the package it reaches, no branch condition (through string operations, map lookups keyed by it, comparisons, predicates) rests on a lossy image - R3's case folding, cut-set trims, Replace, Base; strings.EqualFold; a repository function returning such an image of its parameter - of a value the archive entry name is built from, and no such image comes back from a repository function as the entry name: two files of one tree whose relative paths coincide under the image (Readme.txt / readme.txt) would be treated as one - refused as a duplicate, left out, or the archive given up.",
+			"R12: what R1 asks of the creating calls holds for every call that changes the file system (os.Remove, RemoveAll, Rename, Chmod, Chown, Chtimes, Truncate ... and repository functions whose parameter reaches one): no entry-name-derived value reaches it without a containment test known to have succeeded on it - and a closure that hands a captured variable to such a call either makes the test itself or runs (call sites; for a deferred closure every exit of the function behind the defer statement) only where the value last assigned to the variable has passed the test; a variable assigned from the entry name before the test and read by a deferred clean-up is unchecked at that read. R13: in the function that extracts, every path from the point an entry is obtained to the point the next one is obtained, or to a return that is no failure, passes the creating call named by the entry name and a call that moves the entry's content into the created file (io.Copy/CopyBuffer/CopyN, ReadFrom/WriteTo, Write, os.WriteFile of io.ReadAll; a repository function counts when every one of its own paths to a return that is no failure passes one), unless the path knows the entry is no regular file (kind bits, trailing slash), that the containment test rejected it, or that there is no entry. R14: a function that returns *zip.File, reads elements of a []*zip.File and keeps a cursor (writes state that outlives the call) returns every element it reads: no path from the read of an element to the read of another one or to a return of something else. R15: in ZipFolder and everything of the package it reaches, no branch condition (through string operations, map lookups keyed by it, comparisons, predicates) rests on a lossy image - R3's case folding, cut-set trims, Replace, Base; strings.EqualFold; a repository function returning such an image of its parameter - of a value the archive entry name is built from, and no such image comes back from a repository function as the entry name: two files of one tree whose relative paths coincide under the image (Readme.txt / readme.txt) would be treated as one - refused as a duplicate, left out, or the archive given up. R16: the extraction side of R3 - the argument of a creating call that derives from an entry name is not (built from) a lossy image of it (cut-set trims, case folding, Replace/ReplaceAll, strings.Map, Base; directly, through a repository function returning such an image, or inside the repository function the name is handed on to); FromSlash/ToSlash, Clean, Join are what the writing side inverts.",
 		NotDecided: "the lossless round trip ZipFolder -> UnzipToFolder as such (equal relative paths and contents for every tree) is a value statement over file trees; injectivity of the name mapping (R3) and the selection clause (R5: both selection inputs decide on every path) are the structural parts decided; symbolic links already present inside the destination.",
 		Trusted:    []string{"archive/zip entry names are attacker controlled", "filepath.Rel / filepath.IsLocal semantics"},
 	})
@@ -484,7 +484,8 @@ func runC20(c *Ctx) {
 	lossy := map[string]bool{"strings.TrimLeft": true, "strings.TrimRight": true, "strings.Trim": true, "strings.ToLower": true, "strings.ToUpper": true,
 		"strings.ReplaceAll": true, "strings.Replace": true, "strings.TrimSpace": true, "path/filepath.Base": true, "path.Base": true, "strings.Title": true,
 		"strings.Map": true, "strings.TrimFunc": true, "strings.TrimLeftFunc": true, "strings.TrimRightFunc": true, "strings.Fields": true}
-	c.zipLossyDecisions(fns, env, lossy, "C20.R15") // v_zip_g.go
+	c.zipLossyDecisions(fns, env, lossy, "C20.R15")                         // v_zip_g.go
+	c.zipLossyExtraction(fns, env, lossy, isEntryName, sinkArgs, "C20.R16") // v_zip_h.go
 	nameChain := func(fn *ssa.Function, v ssa.Value) (string, ssa.Instruction) {
 		seen := map[ssa.Value]bool{}
 		var bad string
